@@ -508,4 +508,99 @@ Section Cap.
       (rewrite Hsort, Hreg; unfold xa_P; cbn [sf_version sf_sections sf_xref_stream sf_trailer sf_startxref sf_regions sf_objs length];
        repeat split; exists rs2; split; [exact HF2 | reflexivity]).
   Qed.
+
+  (* ---------- consequences for the objects ---------- *)
+  Lemma xa_nodup_app_disj : forall (A : Type) (l1 l2 : list A) x, NoDup (l1 ++ l2) -> In x l1 -> In x l2 -> False.
+  Proof.
+    induction l1 as [|a l1 IH]; intros l2 x Hnd H1 H2; [contradiction|]. cbn [app] in Hnd. inversion Hnd as [|? ? Ha Hl]; subst.
+    destruct H1 as [-> | H1]; [apply Ha; apply in_or_app; right; exact H2 | exact (IH l2 x Hl H1 H2)].
+  Qed.
+  Lemma xa_flat_map_inj : forall (A B : Type) (f : A -> list B) l a b x, NoDup (flat_map f l) ->
+    In a l -> In b l -> In x (f a) -> In x (f b) -> a = b.
+  Proof.
+    intros A B f. induction l as [|c t IH]; intros a b x Hnd Ha Hb Hxa Hxb; [contradiction|]. cbn [flat_map] in Hnd.
+    assert (Ht : NoDup (flat_map f t)).
+    { clear - Hnd. induction (f c) as [|y l IHl]; [exact Hnd|]. cbn [app] in Hnd. inversion Hnd; subst. apply IHl. assumption. }
+    destruct Ha as [-> | Ha]; destruct Hb as [-> | Hb]; try reflexivity.
+    - exfalso. apply (xa_nodup_app_disj _ _ _ x Hnd Hxa). apply in_flat_map. exists b. split; assumption.
+    - exfalso. apply (xa_nodup_app_disj _ _ _ x Hnd Hxb). apply in_flat_map. exists a. split; assumption.
+    - apply (IH a b x Ht Ha Hb Hxa Hxb).
+  Qed.
+
+  Lemma xa_sren_inj : forall k kk, In (XsStm k) (xs_items d) -> In (XsStm kk) (xs_items d) -> sren k = sren kk -> k = kk.
+  Proof.
+    intros k kk Hk Hkk E. destruct (xs_numbering_bijection_lemma d xa_closed) as [Hnums _]. fold L in Hnums.
+    assert (Hnd : NoDup (flat_map (xn_item_nums L) (xs_l_items L))) by (rewrite Hnums; apply xn_range_nodup).
+    assert (Hi : xs_l_items L = xs_items d) by (unfold L; rewrite xs_L_eq; reflexivity). rewrite Hi in Hnd.
+    assert (Heq : XsStm k = XsStm kk).
+    { apply (xa_flat_map_inj _ _ (xn_item_nums L) (xs_items d) (XsStm k) (XsStm kk) (sren k) Hnd Hk Hkk);
+        unfold xn_item_nums, L; rewrite xs_L_eq; cbn [xs_l_sren xs_l_ren xs_l_plan]; left; [reflexivity | symmetry; exact E]. }
+    injection Heq as ->. reflexivity.
+  Qed.
+
+  Lemma xa_lay_of_item : forall it, In it (xs_items d) -> exists q, In (it, q) (xe_lay d).
+  Proof.
+    intros it H. rewrite <- (xe_layout_fst (xs_chunk' d) (xs_items d) (N.of_nat (length (xs_hdr d)))) in H.
+    apply in_map_iff in H. destruct H as [[it' q] [E Hin]]. cbn [fst] in E. subst it'. exists q. exact Hin.
+  Qed.
 End Cap.
+
+(* The capstone for the object-stream / cross-reference-stream mode (qpdf --object-streams=generate --compress-streams=n
+   --decode-level=none --static-id): for EVERY well-formed document that has an eligible object, whose trailer carries none of the
+   keys the writer erases, and whose output stays below 2^63, the strict reader (written from ISO 32000-1 only) accepts the WHOLE
+   output of the byte-exact writer model and reads back the written document: version max(input, 1.5); ONE section, a
+   cross-reference stream; the trailer entries with /Size = highest number + 1 and the /ID pair; every byte accounted for
+   (header, each written item, the xref stream, the tail: the regions of xs_regions_ok); every uncompressed object (plain or
+   stream object, object stream) under its new number with generation 0 at its recorded offset with the written value; and
+   every member of every object stream as a compressed object (stream number, index) under its new number with the written
+   value, references renumbered. *)
+Lemma xs_write_read_strict_lemma : forall d, wf_doc d -> xs_eligible d <> [] -> xr_trailer_trimmed d ->
+  ~ In k_Encrypt (map fst (d_trailer d)) ->
+  xs_l_xref_off (xs_L d) < 2 ^ 63 -> xs_l_xref_id (xs_L d) < 2 ^ 63 ->
+  exists f, read_strict (xs_write_doc wm_unparse_string wm_unparse_name d) = RsOk f
+    /\ sf_version f = xs_version (d_version d)
+    /\ sf_sections f = 1 /\ sf_xref_stream f = true
+    /\ sf_trailer f = xp_xref_dict d
+    /\ get_int (sf_trailer f) n_Size = Some (xs_l_xref_id (xs_L d) + 1)
+    /\ sf_startxref f = xs_l_xref_off (xs_L d)
+    /\ sf_regions f = xr_regions d
+    /\ regions_ok (xs_out d) 0 (sf_regions f) (N.of_nat (length (xs_out d))) = None
+    /\ (forall it q, In (it, q) (xe_lay d) ->
+          exists so, In so (sf_objs f) /\ so_num so = xe_item_num d it /\ so_gen so = 0 /\ so_where so = XInUse q 0
+                     /\ match it with
+                        | XsObj x => so_val so = xo_val (d_objects d) (xs_renf d) (xs_lookup (d_objects d) x)
+                        | XsStm k => so_val so = SpDict (xe_objstm_dict d k)
+                        end)
+    /\ (forall k j m, In (XsStm k) (xs_items d) -> nth_error (xs_members (xs_P d) k) j = Some m ->
+          exists so, In so (sf_objs f) /\ so_num so = xs_renf d m /\ so_gen so = 0
+                     /\ so_where so = XComp (xs_srenf d k) (N.of_nat j) /\ so_stream so = None
+                     /\ so_val so = to_pobj (d_objects d) (xs_renf d) (i_val (xs_lookup (d_objects d) m))).
+Proof.
+  intros d W Hel Htt Henc Hoff Hid.
+  pose proof (xa_main d W Hel Htt Henc Hoff Hid) as Hm. fold (xs_out d).
+  destruct (read_strict (xs_out d)) as [f | c a]; [| contradiction]. exists f. split; [reflexivity|].
+  destruct Hm as [Hv [Hs [Hx [Ht [Hsx [Hr [rs2 [HF2 Hobjs]]]]]]]].
+  split; [exact Hv|]. split; [exact Hs|]. split; [exact Hx|]. split; [exact Ht|].
+  split; [rewrite Ht; apply (xr_dict_size d W Htt)|]. split; [exact Hsx|]. split; [exact Hr|].
+  split; [rewrite Hr; apply (xs_regions_ok_lemma d Hel)|]. split.
+  - intros it q Hip. exists (xa_obj d (fun _ => None) (it, q)).
+    destruct (xa_obj_spec d W Hel (fun _ => None) (it, q) Hip) as [HG [Hn [Hg [Hw _]]]]. cbn [fst snd] in *.
+    split; [| split; [exact Hn | split; [exact Hg | split; [exact Hw|]]]].
+    + rewrite Hobjs. apply in_or_app. left. apply in_rev. rewrite rev_involutive, (xa_C_items d W Hel Htt). apply in_or_app. left.
+      apply in_map. exact Hip.
+    + destruct (xe_item_read d W Hel it q Hip) as [o [Hp [_ [_ [_ [_ Hval]]]]]].
+      assert (Eo : xa_obj d (fun _ => None) (it, q) = o).
+      { unfold xa_obj, xa_G1. cbn [fst snd]. rewrite (Hp (fun _ => None)). reflexivity. }
+      rewrite Eo. destruct it as [x | k]; [exact Hval | exact (proj1 Hval)].
+  - intros k j m Hk Hj.
+    destruct (xa_lay_of_item d (XsStm k) Hk) as [q Hip].
+    assert (Hin : In (xs_renf d m, XComp (xs_srenf d k) (N.of_nat j)) (xs_numbered 0 (xs_l_entries (xs_L d)))).
+    { rewrite (xa_XR_items d W). right. apply in_or_app. left. apply in_flat_map. exists (XsStm k, q). split; [exact Hip|].
+      unfold xa_ents. cbn [fst snd]. right. rewrite <- (xa_member_entry d W k q j m Hip Hj). apply (in_map (fun m0 => xa_g d (xs_renf d m0))). apply (nth_error_In _ _ Hj). }
+    destruct (Forall2_in_left _ _ _ _ _ _ HF2 Hin) as [r [Hr2 HR]]. cbn [xa_R2] in HR.
+    destruct HR as [c [-> [Hn [Hg [Hw [Hst [kk [m' [Hkk [Hs2 [Hm' [Hnm Hval]]]]]]]]]]]].
+    assert (kk = k) by (symmetry; apply (xa_sren_inj d W k kk Hk Hkk Hs2)). subst kk.
+    rewrite Nat2N.id in Hm'. assert (m' = m) by congruence. subst m'.
+    exists c. split; [| repeat split; assumption].
+    rewrite Hobjs. apply in_or_app. right. apply in_rev. rewrite rev_involutive. apply in_concat. exists [c]. split; [exact Hr2 | left; reflexivity].
+Qed.
